@@ -406,13 +406,8 @@ func run(c *fw.Ctx, idx int) {
 		}
 		rec := opRec{seq: s, proc: proc, member: mi, kind: kind, c: ci, vseq: vseq, call: time.Now().UnixNano()}
 		if kind == "pin" {
-			// what the state must hold for this write: the submitted pin through the state's own encoding
-			if b, err := pin.ProtoMarshal(); err == nil {
-				w := &api.Pin{}
-				if w.ProtoUnmarshal(b) == nil {
-					rec.want = w
-				}
-			}
+			// what the state must hold for this write (the harness's own reading of the stored form)
+			rec.want = mon.StoredForm(pin)
 		}
 		cctx, cancel := context.WithTimeout(ctx, limit)
 		method := "LogPin"
